@@ -9,7 +9,7 @@ from .poly import Poly, Rat, NotPolynomial, PI
 from .extract import AnalysisBroken, REPO
 from . import mparse
 from .closedform import canon, short, LOG, ARGS, key, diff_term
-from .series import taylor, SeriesError, rat_series
+from .series import taylor, SeriesError, rat_series, asymptotic, LZ
 from .rules_c11 import flatten_assumed, know, INLINE_HELPERS
 
 PID = "C01"
@@ -240,7 +240,7 @@ def limit_at_zero(R, var):
     return ("finite", Rat(n, d))
 
 
-def poly_float(p, scale=False):
+def poly_float(p, scale=False, logz=None):
     """numeric value of a Poly over constants (for the error estimates only)"""
     tot = 0.0
     sc = 0.0
@@ -253,6 +253,8 @@ def poly_float(p, scale=False):
                 v *= math.log(float(atom[1])) ** e
             elif isinstance(atom, tuple) and atom[0] == "sqrtQ":
                 v *= math.sqrt(float(atom[1])) ** e
+            elif atom == LZ and logz is not None:
+                v *= logz ** e
             else:
                 raise NotPolynomial("non-constant atom %s" % (atom,))
         tot += v
@@ -357,6 +359,8 @@ def run(F, R, tier):
     R.rule("R2", "every Taylor-branch coefficient == exact Taylor coefficient of the closed form at x = 1", 10)
     R.rule("R3", "special values at 0, 1/4, 1 == limits of the closed form and the F[0], F[1/4], F[1] lines of ffunctions.m", 25)
     R.rule("R4", "at the Taylor window edge: series truncation error and closed-form cancellation error <= 1e-7 relative", 20)
+    R.rule("R6", "large-argument branch == expansion of the closed form for x -> infinity (f_PS from its differential equation); "
+                 "truncation error at the switch-over point <= 1e-7", 4)
     R.rule("R5", "negative argument => NaN: every regime a negative argument can reach returns quiet_NaN or evaluates log(x) / a loop function of x that does", 17)
 
     fps_quarter = {("f_PS", (Fraction(1, 4),)): Poly.atom(LOG("2")).scale(2)}
@@ -406,8 +410,13 @@ def run(F, R, tier):
                         "generic branch of %s differs from its %s in math/ffunctions.m" % (cname, what), key="R1|" + cname)
 
         # ---- R2, R4 -------------------------------------------------------------------------------------------
-        if "taylor" in cl and gen is not None:
+        if "taylor" in cl and (gen is not None or cname == "f_PS"):
             facts, tval, (x0, W) = cl["taylor"]
+            if cname == "f_PS":
+                # f_PS itself: reference series from its differential equation (series.fps_quarter_coeffs)
+                gen_s = Rat(Poly.atom(("FN", "f_PS", (key(Rat(Poly.atom(("sym", var)))),))))
+            else:
+                gen_s = gen
             try:
                 tp = canon(tval)
                 if not tp.d.is_const():
@@ -415,7 +424,7 @@ def run(F, R, tier):
                 deg = tp.n.degree_in(("sym", var))
                 tc = taylor(tp, var, x0, deg + 1)
                 NX = deg + 12
-                cc = taylor(gen, var, x0, NX)
+                cc = taylor(gen_s, var, x0, NX)
                 bad = [k_ for k_ in range(deg + 1) if not (tc[k_] - cc[k_]).is_zero()]
                 R.check("R2", not bad, "%s: %d Taylor coefficients at %s = %s" % (cname, deg + 1, var, x0), loc,
                         "Taylor branch of %s: coefficient(s) of d^%s differ from the series of the closed form "
@@ -438,11 +447,11 @@ def run(F, R, tier):
                             "Taylor window of %s (is_equal_rel(.., %s, %s): |d| up to %.3g) is too wide for a series of degree "
                             "%d: truncation error %.2e > 1e-7" % (cname, x0, W, D, deg, trunc), key="R4t|" + cname)
                     # cancellation of the closed form just outside the window
-                    s, sh = rat_series(Rat(gen.d), var, Fraction(x0), 12)
+                    s, sh = rat_series(Rat(gen_s.d), var, Fraction(x0), 12)
                     p = s.val() or 0
                     kappa = 0.0
                     xa = ("sym", var)
-                    for m, c in gen.n.t.items():
+                    for m, c in (gen_s.n.t.items() if p else ()):
                         if all(a == xa for a, e in m):
                             kappa += abs(float(c)) * float(x0) ** sum(e for a, e in m)
                         else:
@@ -466,6 +475,41 @@ def run(F, R, tier):
         elif cname in TAYLOR:
             R.fail("R2", "%s: Taylor branch around 1" % cname, loc,
                    "%s has a pole of its closed form at 1 but no Taylor branch was found" % cname, key="R2|" + cname)
+
+        # ---- R6: large-argument expansion ---------------------------------------------------------------------------
+        for facts, aval, kinds in cl["other"]:
+            big = [k for k in kinds if k[0] in ("gt", "ge") and k[1] is not None and k[1] >= 10]
+            if cname == "f_PS":
+                R.analysed.setdefault("undecided_regimes", []).append("f_PS under %s" % (kinds,))
+                continue
+            if len(kinds) != 1 or not big or gen is None:
+                R.soft_broken("%s: unrecognised evaluation regime under %s" % (cname, kinds))
+                continue
+            T = float(big[0][1])
+            try:
+                ac, ash = asymptotic(canon(aval), var, 12)
+                order = max([i for i, c in enumerate(ac) if c.t] or [0])
+                gc, gsh = asymptotic(gen, var, order + 9)
+                if ash != gsh:
+                    raise SeriesError("leading powers differ (%d vs %d)" % (ash, gsh))
+                bad = [i for i in range(order + 1) if not (ac[i] - gc[i]).is_zero()]
+                R.check("R6", not bad, "%s: %d coefficients of the expansion for %s -> infinity" % (cname, order + 1, var), loc,
+                        "large-%s branch of %s: coefficient(s) of %s^-%s differ from the expansion of the closed form "
+                        "(code %s, exact %s)" % (var, cname, var, bad, [repr(ac[i]) for i in bad][:2], [repr(gc[i]) for i in bad][:2]),
+                        key="R6|" + cname)
+                lt = math.log(T)
+                c0 = abs(poly_float(gc[0], logz=lt)) or 1.0
+                nxt = [abs(poly_float(c, logz=lt)) * T ** (-(order + 1 + i)) for i, c in enumerate(gc[order + 1:])]
+                trunc = sum(nxt) / c0
+                if len(nxt) >= 2 and nxt[-2] > 0:
+                    ratio = min(0.999, nxt[-1] / nxt[-2])
+                    trunc += nxt[-1] * ratio / (1 - ratio) / c0
+                R.check("R6", trunc <= float(ACC), "%s: truncation error of the expansion at %s = %g: %.2e" % (cname, var, T, trunc), loc,
+                        "large-%s branch of %s starts at %s = %g, where an expansion to order %d has truncation error "
+                        "%.2e > 1e-7" % (var, cname, var, T, order, trunc), key="R6t|" + cname)
+            except (NotPolynomial, SeriesError) as e:
+                R.fail("R6", "%s: large-%s branch vs closed form" % (cname, var), loc,
+                       "expansion at infinity failed: %s" % str(e)[:200], key="R6|" + cname)
 
         # ---- R3: zero and 1/4 ------------------------------------------------------------------------------------
         mname = NAMES.get(cname, "fPS" if cname == "f_PS" else None)
